@@ -6,17 +6,20 @@ import (
 	"go/types"
 	"sort"
 	"strings"
+
+	"golang.org/x/tools/go/ssa"
 )
 
 func init() {
-	register("C13", false, false, checkC13)
+	register("C13", false, true, checkC13)
 }
 
 func checkC13(w *World, tier string) *Report {
 	r := newReport("C13")
 	r.Explanation = "R13.1 wrapper summary of Tracer.TransferWithRecord (its body is a straight statement list, checked as such): exactly one call of the transfer parameter with (db, from, to, amount) in order; before it saveBalance(from, …) then saveBalance(to, …), after it the same two in the same order; each recorded balance is db.GetBalance of the same account evaluated in that statement; all four use one call-index variable read from CurrentCallIndex before the transfer and never re-assigned; " +
-		"R13.2 who-may-call over all fork packages: a TransferFunc value is invoked only inside TransferWithRecord; TransferWithRecord is called exactly from Call and create (after the snapshot, R4.2) with evm.Context.Transfer; saveBalance is called only from TransferWithRecord; the balance root's change list is written only through saveBalance/JournalChanges. Equality with the true balances then holds by construction given a truthful StateDB.GetBalance."
+		"R13.2 who-may-call over all fork packages: a TransferFunc value is invoked only inside TransferWithRecord; TransferWithRecord is called exactly from Call and create (after the snapshot, R4.2) with evm.Context.Transfer; saveBalance is called only from TransferWithRecord; the balance root's change list is written only through saveBalance/JournalChanges. R13.3 (SSA, all paths) every observation is recorded: saveBalance reaches StorageKey.JournalChanges on every path, with its own call-index parameter and the bytes of its own balance parameter, and JournalChanges always reaches StorageChanges.append, whose only suppression is the per-call repeat test (C10 R10.5) — no cache outside the per-call list can drop a frame's before/after entry. Equality with the true balances then holds by construction given a truthful StateDB.GetBalance."
 	addR131(w, r, "R13.1")
+	addR133(w, r, "R13.3")
 	// R13.2
 	p := w.Pkgs[forkPath(pkVM)]
 	var bad []string
@@ -245,4 +248,71 @@ func calleeFunc(info *types.Info, call *ast.CallExpr) (*types.Func, bool) {
 	}
 	fo, ok := info.Uses[id].(*types.Func)
 	return fo, ok
+}
+
+
+// addR133: saveBalance journals on every path, with its own arguments.
+func addR133(w *World, r *Report, rule string) {
+	vm := forkPath(pkVM)
+	fn := w.Func(vm, "(*StateChanges).saveBalance")
+	key := "vm.(*StateChanges).saveBalance"
+	if fn == nil {
+		r.undecided(rule, key, "-", "function not found")
+		return
+	}
+	isJournal := func(c ssa.CallInstruction) bool {
+		cal := c.Common().StaticCallee()
+		return cal != nil && cal.Name() == "JournalChanges" && isForkPkg(cal.Pkg)
+	}
+	if leak := mustCallBeforeReturn(fn, isJournal, nil); leak != nil {
+		r.violated(rule, key+"/always-journals", w.pos(leak.Pos()), "a path returns without journaling the observed balance: a frame's before/after entry can be suppressed by state outside that frame's list")
+	} else {
+		r.holds(rule, key+"/always-journals", w.pos(fn.Pos()), "every path passes StorageKey.JournalChanges")
+	}
+	idx := uniqueUint64Param(fn)
+	var bal *ssa.Parameter
+	for _, p := range fn.Params[1:] {
+		if isBignumPtr(p.Type()) {
+			bal = p
+		}
+	}
+	bad := ""
+	n := 0
+	for _, b := range fn.Blocks {
+		for _, ins := range b.Instrs {
+			c, ok := ins.(*ssa.Call)
+			if !ok || !isJournal(c) {
+				continue
+			}
+			n++
+			if len(c.Call.Args) != 3 || c.Call.Args[1] != ssa.Value(idx) {
+				bad = "the call index handed to JournalChanges is not saveBalance's own call-index parameter"
+			}
+			bc, ok := c.Call.Args[2].(*ssa.Call)
+			if !ok || bc.Call.StaticCallee() == nil || len(bc.Call.Args) != 1 || bc.Call.Args[0] != ssa.Value(bal) || !strings.HasPrefix(bc.Call.StaticCallee().Name(), "Bytes") {
+				bad = "the value journaled is not the byte form of saveBalance's own balance parameter"
+			}
+		}
+	}
+	if n != 1 && bad == "" {
+		bad = fmt.Sprintf("expected exactly one JournalChanges call, found %d", n)
+	}
+	if bad != "" {
+		r.violated(rule, key+"/arguments", w.pos(fn.Pos()), bad)
+	} else {
+		r.holds(rule, key+"/arguments", w.pos(fn.Pos()), "JournalChanges(callIdx parameter, bytes of the balance parameter)")
+	}
+	jf := w.Func(vm, "(*StorageKey).JournalChanges")
+	if jf == nil {
+		r.undecided(rule, "vm.(*StorageKey).JournalChanges", "-", "function not found")
+	} else if leak := mustCallBeforeReturn(jf, func(c ssa.CallInstruction) bool {
+		cal := c.Common().StaticCallee()
+		return cal != nil && cal.Name() == "append" && isForkPkg(cal.Pkg)
+	}, nil); leak != nil {
+		r.violated(rule, "vm.(*StorageKey).JournalChanges/always-appends", w.pos(leak.Pos()), "a path returns without handing the value to the per-call list")
+	} else {
+		r.holds(rule, "vm.(*StorageKey).JournalChanges/always-appends", w.pos(jf.Pos()), "every path passes StorageChanges.append")
+	}
+	addR105(w, r, "R10.5")
+	r.need(rule, 3)
 }
